@@ -20,6 +20,11 @@ pub struct ExSeekFrom(std::io::SeekFrom);
 pub assume_specification<T: Clone>[ <[T]>::to_vec ](s: &[T]) -> (r: Vec<T>)
     ensures r@ == s@;
 
+/// T3: u64::next_power_of_two (std): smallest power of two >= x (1 for 0); overflow excluded by the bound
+pub assume_specification[ u64::next_power_of_two ](x: u64) -> (r: u64)
+    requires x <= 0x4000_0000_0000_0000
+    ensures is_pow2(r as nat), r >= x, r >= 1, x >= 1 ==> r < 2 * x, x == 0 ==> r == 1;
+
 // ---- R5 targets -------------------------------------------------------------------------------
 /// `panic!/unimplemented!/unreachable!` sites: must be unreachable
 #[verifier::external_body]
